@@ -429,7 +429,16 @@ func (g *Gen) opToken(conns []*Client) {
 	if rapid.IntRange(0, 2).Draw(g.t, "hastid") > 0 {
 		tid = g.sample("tid", []string{"t1", "t2", "t3"})
 	}
-	g.w.Exec(Op{K: "token", C: c.Idx, P: tok, S: tid})
+	op := Op{K: "token", C: c.Idx, P: tok, S: tid}
+	// the ways of clearing a token: an explicit null is in the token list; an
+	// event without the member, or the payload null, clears it just the same
+	switch rapid.IntRange(0, 11).Draw(g.t, "tokenshape") {
+	case 0:
+		op.O, op.P = "nomember", "null"
+	case 1:
+		op.O, op.P, op.S = "nullpayload", "null", ""
+	}
+	g.w.Exec(op)
 }
 
 func (g *Gen) opBurst(conns []*Client) {
